@@ -338,6 +338,20 @@ class Check:
         hits = forbidden_scan()
         if hits:
             self.broken.append("forbidden constructs in development: " + "; ".join(hits[:5]))
+        if self.tier == "thorough" and pr["ok"]:
+            # independent re-check of the compiled theorem file and everything it depends on
+            rc, out = run(["coqchk", "-silent", "-o", "-Q", COQ, "Verif", f"Verif.Props.{self.id}"], 1800, cwd=COQ)
+            m = re.search(r"\* Axioms:\s*(.*?)\n\s*\n", out, re.S)
+            self.coqchk = (m.group(1).strip() if m else "no summary")
+            if rc != 0 or not m:
+                self.broken.append("coqchk rejects the compiled theorem file: " + out.strip()[-300:])
+            elif self.coqchk != "<none>":
+                self.broken.append("coqchk reports axioms: " + self.coqchk[:300])
+            for key in ("type-in-type", "unsafe (co)fixpoints", "positivity is assumed"):
+                mm = re.search(re.escape(key) + r":\s*(\S+)", out)
+                if mm and mm.group(1) != "<none>":
+                    self.broken.append(f"coqchk: constants relying on {key}: {mm.group(1)}")
+            self.checker_cmd += f"; coqchk -o -Q coq Verif Verif.Props.{self.id}"
         return model_ok
 
     # ---- violations
